@@ -2,6 +2,7 @@
 From Coq Require Import NArith List Bool Arith.
 Import ListNotations.
 From HV Require Export lib.Harness model.Types model.Resolve spec.ResolveS.
+From HV Require Export model.SerialHugr model.ResolveHugr spec.ResolveHugrS.
 
 Definition builtin_eqb (a b : builtin) : bool :=
   match a, b with
@@ -44,11 +45,40 @@ Record node_obs := { n_op : op; n_res : op; n_res2 : op; n_ser0 : option op; n_s
                      n_pt0 : list ty; n_pt1 : list ty;
                      n_pb0 : list (option bound); n_pb1 : list (option bound) }.
 
+(* a whole HUGR (second pass): the public-API dump (harness/hobs.py: root, node table with holes, per node the
+   operation / parent / children / metadata / port counts, links; constants with their function values' HUGRs dumped
+   recursively) before resolve_extensions, after it, after a second one; the parsed `to_json` document before and
+   after (None = it raised); what Hugr.port_type shows for every out port of every live node (node order, then
+   offset) before and after; whether the call returned the HUGR itself with the same node iteration *)
+Record whole_obs := { w_h0 : hugrT; w_h1 : hugrT; w_h2 : hugrT;
+                      w_doc0 : option serialT; w_doc1 : option serialT;
+                      w_pt0 : list (list (option ty)); w_pt1 : list (list (option ty));
+                      w_self : bool }.
+
 Inductive case :=
 | CTy (reg : registry) (t : ty) (o : ty_obs)
 | CArg (reg : registry) (a : tyarg) (o : arg_obs)
 (* rest_same: the serialised document with the Extension operations taken out is unchanged *)
-| CHugr (reg : registry) (nodes : list node_obs) (rest_same : bool).
+| CHugr (reg : registry) (nodes : list node_obs) (rest_same : bool)
+| CWhole (reg : registry) (w : whole_obs).
+
+(* short constructor names for the literals of whole HUGRs *)
+Definition Nd : hop -> option nat -> list nat -> N -> nat -> nat -> nodeT := Build_node hop md.
+Definition Hg : list (option nodeT) -> nat -> list link -> hugrT := Build_hugr hop md.
+Definition Lk (a : nat) (x : aoff) (b : nat) (y : aoff) : link := ((a, x), (b, y)).
+Definition Sn : sop -> nat -> snode sop := Build_snode sop.
+Definition Sr : list (snode sop) -> list sedge -> option (list (option md)) -> serialT := Build_serial sop md.
+Definition Ed (a : nat) (x : option nat) (b : nat) (y : option nat) : sedge := ((a, x), (b, y)).
+Definition Wo := Build_whole_obs.
+
+(* Hugr.port_type of every out port of every live node, in the model *)
+Definition model_pts (h : hugrT) : list (list (option ty)) :=
+  map (fun i => match get_node h i with
+                | Some n => map (port_type h i) (seq 0 (SerialHugr.n_nout n))
+                | None => []
+                end) (live h).
+Definition pts_eqb : list (list (option ty)) -> list (list (option ty)) -> bool :=
+  list_eqb (list_eqb (option_eqb ty_eqb)).
 
 (* ---------------------------------------------------------------- correspondence: implementation = model *)
 Definition port_types (o : op) : list ty :=
@@ -81,6 +111,11 @@ Definition corr (c : case) : bool :=
       implb (forallb (fun n => match ser_op (resolve_op reg (n_op n)) with Some _ => true | None => false end) nodes) rest &&
       (* Hugr.resolve_extensions as a whole *)
       list_eqb op_eqb (map n_res nodes) (resolve_hugr reg (map n_op nodes))
+  | CWhole reg w =>
+      let r := resolve_extensions reg (w_h0 w) in
+      hugr_eqb r (w_h1 w) && hugr_eqb (resolve_extensions reg (w_h1 w)) (w_h2 w) &&
+      option_eqb doc_eqb (hugr_doc (w_h0 w)) (w_doc0 w) && option_eqb doc_eqb (hugr_doc r) (w_doc1 w) &&
+      pts_eqb (w_pt0 w) (model_pts (w_h0 w)) && pts_eqb (w_pt1 w) (model_pts r)
   end.
 
 (* ---------------------------------------------------------------- monitor: the specification on the
@@ -137,6 +172,35 @@ Definition mon_node (reg : registry) (n : node_obs) : bool :=
   implb (consistent_op reg (n_op n))
         (ser_same reg (n_ser0 n) (n_ser1 n) && list_eqb obound_eqb (n_pb1 n) (n_pb0 n)).
 
+(* whole HUGR: the specification of spec/ResolveHugrS.v on the implementation's dumps *)
+Definition live_ops (h : hugrT) : list hop :=
+  flat_map (fun x => match x with Some n => [SerialHugr.n_op n] | None => [] end) (h_nodes h).
+Definition opt_tbound (t : option ty) : option (option bound) := option_map tbound t.
+Fixpoint mon_pts (reg : registry) (cons : bool) (ops : list hop) (p0 p1 : list (list (option ty))) : bool :=
+  match ops, p0, p1 with
+  | [], [], [] => true
+  | o :: r, a :: r0, b :: r1 =>
+      (* a node whose operation the registry does not define shows the same port types; otherwise each is the old one
+         with exactly its resolvable opaque types replaced *)
+      (if hop_holds (untouchable_op reg) o then list_eqb (option_eqb ty_eqb) a b
+       else list_eqb (port_type_rel_b reg) a b) &&
+      implb cons (list_eqb (option_eqb obound_eqb) (map opt_tbound b) (map opt_tbound a)) &&
+      mon_pts reg cons r r0 r1
+  | _, _, _ => false
+  end.
+Definition mon_whole (reg : registry) (w : whole_obs) : bool :=
+  let cons := consistent_hugr reg (w_h0 w) in
+  w_self w &&
+  rhugr_b reg (w_h0 w) (w_h1 w) &&                              (* frame + exactly the defined operations; constants identical *)
+  implb (hugr_all op_loaded (w_h0 w)) (hugr_all (op_clean reg) (w_h1 w)) &&   (* no resolvable opaque type remains *)
+  hugr_eqb (w_h1 w) (w_h2 w) &&                                 (* idempotent *)
+  implb cons (match w_doc0 w, w_doc1 w with                     (* the document *)
+              | Some a, Some b => same_doc_b reg a b
+              | None, None => true
+              | _, _ => false
+              end) &&
+  mon_pts reg cons (live_ops (w_h0 w)) (w_pt0 w) (w_pt1 w).
+
 Definition mon (c : case) : bool :=
   match c with
   | CTy reg t o => implb (regwf_b reg) (mon_ty reg t o)
@@ -145,4 +209,5 @@ Definition mon (c : case) : bool :=
       (* an inconsistent operation may be unserialisable once resolved; the document is then not comparable *)
       implb (regwf_b reg) (forallb (mon_node reg) nodes &&
                            implb (forallb (fun n => consistent_op reg (n_op n)) nodes) rest)
+  | CWhole reg w => implb (regwf_b reg) (mon_whole reg w)
   end.
